@@ -98,6 +98,13 @@ def run(sid, props):
     if rc != 0:
         print("apply failed", out)
         return 1
+    # the checks rewrite evidence/<id>.json: keep the evidence of the unchanged tree
+    saved = {}
+    for p in props:
+        ev = os.path.join(ROOT, "evidence", p + ".json")
+        if os.path.exists(ev):
+            with open(ev) as f:
+                saved[ev] = f.read()
     try:
         for p in props:
             t0 = time.time()
@@ -108,6 +115,10 @@ def run(sid, props):
             print(sid, p, verdict, meta["checks"][p]["detail"][:200])
     finally:
         sh("git -C /repo checkout -- . && git -C /repo clean -fdq -e target")
+        for ev, text in saved.items():
+            with open(ev, "w") as f:
+                f.write(text)
+        sh("python3 %s" % os.path.join(ROOT, "tools", "translate.py"))
     with open(os.path.join(d, "meta.json"), "w") as f:
         json.dump(meta, f, indent=1)
     return 0
